@@ -143,7 +143,9 @@ def replay_detail(ctx, detail: dict, cls: str) -> bool:
         names, consts, ng = irtrace.NAMES, irtrace.CONSTS, 3
     else:
         names, consts, ng = NAMES4, CONSTS4, 2
-    u = Universe(ng, names, consts)
+    u = Universe.__new__(Universe)
+    u.strict_consts = detail.get("source") != "trace"      # as in the replay of the model-checked states
+    u.__init__(ng, names, consts)
     for cc, _ in detail.get("history", []):
         u.apply(call_from_compact(cc))
     pre, extra = u.project(), u.extra_snapshot()
